@@ -2264,6 +2264,7 @@ class QuicConnection:
             )
 
         # process data
+        already_finished = stream.receiver.is_finished
         try:
             event = stream.receiver.handle_frame(frame)
         except FinalSizeError as exc:
@@ -2272,6 +2273,10 @@ class QuicConnection:
                 frame_type=frame_type,
                 reason_phrase=str(exc),
             )
+        if event is not None and already_finished and not event.data:
+            # A retransmitted or duplicated FIN, the end of the stream has
+            # already been signalled to the application.
+            event = None
         if event is not None:
             self._events.append(event)
         self._local_max_data.used += newly_received
